@@ -186,6 +186,7 @@ func init() {
 
 		// 7. the probe itself
 		checkProbeNode(c, "C19")
+		checkStreamPingAnswer(c, "C19")
 	})
 }
 
